@@ -1201,6 +1201,13 @@ def _execute(plan, out, scratch, w, clock, recs):
                     attached[keys[i]].append((i, j))
                     j += 1
                 x = lgr = None
+                # the exception (and with it the frames of the constructor
+                # that failed, half-built handler included) is still alive
+                # here, as it is in an application's "except OSError:" block:
+                # the registry holds the finished handlers and nothing else
+                check_registry(step, "a failed factory call (its exception "
+                                     "still being handled)")
+                probe("registry-checked-inside-except")
                 return None
             unknown = any(hm["uses_unknown"] for hm in m["handlers"])
             fvs = [hm["format_verdict"] for hm in m["handlers"]]
